@@ -16,11 +16,13 @@ import (
 	"net"
 	"net/http"
 	"os"
+	"path/filepath"
 	"sort"
 	"strconv"
 	"strings"
 	"sync"
 	"sync/atomic"
+	"syscall"
 	"time"
 
 	"github.com/thushan/olla/internal/app"
@@ -36,22 +38,22 @@ import (
 
 // Behaviour is what a backend does with one (non-health, non-model-listing) request.
 type Behaviour struct {
-	Kind    string      `json:"kind"` // ok | reset0 | close0 | garbage | hdr-reset | hdr-close | body-reset | body-close | body-stall | shortcl | truncchunk | stall0
-	Status  int         `json:"status,omitempty"`
-	Headers [][2]string `json:"headers,omitempty"`
-	Body    []byte      `json:"-"`
-	BodyHex string      `json:"body_hex,omitempty"`
-	Chunked bool        `json:"chunked,omitempty"`
-	K       int         `json:"k,omitempty"`        // body bytes delivered before the fault
-	ChunkSz int         `json:"chunk_sz,omitempty"` // size of chunks when Chunked (default: whole body)
-	StallMs int         `json:"stall_ms,omitempty"`
+	Kind    string        `json:"kind"` // ok | reset0 | close0 | garbage | hdr-reset | hdr-close | body-reset | body-close | body-stall | shortcl | truncchunk | stall0
+	Status  int           `json:"status,omitempty"`
+	Headers [][2]string   `json:"headers,omitempty"`
+	Body    []byte        `json:"-"`
+	BodyHex string        `json:"body_hex,omitempty"`
+	Chunked bool          `json:"chunked,omitempty"`
+	K       int           `json:"k,omitempty"`        // body bytes delivered before the fault
+	ChunkSz int           `json:"chunk_sz,omitempty"` // size of chunks when Chunked (default: whole body)
+	StallMs int           `json:"stall_ms,omitempty"`
 	Gate    chan struct{} `json:"-"` // if set, the backend waits on it after reading the request
 }
 
 // Seen is one request as the backend received it.
 type Seen struct {
 	Method   string              `json:"method"`
-	Path     string              `json:"path"`     // as sent on the wire (escaped form)
+	Path     string              `json:"path"` // as sent on the wire (escaped form)
 	RawQuery string              `json:"rawquery"`
 	Host     string              `json:"host"`
 	Header   map[string][]string `json:"header"`
@@ -68,23 +70,23 @@ type Seen struct {
 var globalSeq int64
 
 type Backend struct {
-	Name     string
-	ln       net.Listener
-	addr     string
-	mu       sync.Mutex
-	script   func(n int, s *Seen) Behaviour
-	seen     []*Seen
-	nreq     int
-	refusing bool
-	Models   []string // for model listing (openai format unless ListingBody set)
-	Listing  func(path string) (int, string)
-	HealthStatus int32 // 0 => 200
-	healthHits   int64
-	conns    sync.WaitGroup
-	open     int64
-	closed   bool
-	KeepBodies bool
-	live     map[net.Conn]struct{}
+	Name             string
+	ln               net.Listener
+	addr             string
+	mu               sync.Mutex
+	script           func(n int, s *Seen) Behaviour
+	seen             []*Seen
+	nreq             int
+	refusing         bool
+	Models           []string // for model listing (openai format unless ListingBody set)
+	Listing          func(path string) (int, string)
+	HealthStatus     int32 // 0 => 200
+	healthHits       int64
+	conns            sync.WaitGroup
+	open             int64
+	closed           bool
+	KeepBodies       bool
+	live             map[net.Conn]struct{}
 	AbortUploadAfter int64 // >0: read this many body bytes of a proxied request, then RST without answering
 }
 
@@ -104,7 +106,11 @@ func NewBackend(name string) *Backend {
 func (b *Backend) Addr() string { return b.addr }
 func (b *Backend) URL() string  { return "http://" + b.addr }
 
-func (b *Backend) SetScript(f func(n int, s *Seen) Behaviour) { b.mu.Lock(); b.script = f; b.mu.Unlock() }
+func (b *Backend) SetScript(f func(n int, s *Seen) Behaviour) {
+	b.mu.Lock()
+	b.script = f
+	b.mu.Unlock()
+}
 func (b *Backend) SetBehaviour(bh Behaviour) {
 	b.SetScript(func(int, *Seen) Behaviour { return bh })
 }
@@ -159,7 +165,7 @@ func (b *Backend) Taken() []*Seen {
 	return s
 }
 
-func (b *Backend) Count() int { b.mu.Lock(); defer b.mu.Unlock(); return len(b.seen) }
+func (b *Backend) Count() int        { b.mu.Lock(); defer b.mu.Unlock(); return len(b.seen) }
 func (b *Backend) HealthHits() int64 { return atomic.LoadInt64(&b.healthHits) }
 func (b *Backend) OpenConns() int64  { return atomic.LoadInt64(&b.open) }
 
@@ -432,27 +438,27 @@ func (e EP) URL() string {
 }
 
 type Opts struct {
-	Engine   string // sherpa | olla
-	Balancer string // priority | round-robin | least-connections
-	Profile  string // auto | streaming | standard
-	EPs      []EP
+	Engine         string // sherpa | olla
+	Balancer       string // priority | round-robin | least-connections
+	Profile        string // auto | streaming | standard
+	EPs            []EP
 	ModelDiscovery bool
-	Mutate   func(*config.Config)
+	Mutate         func(*config.Config)
 	// Load: write the configuration out as YAML and read it back through config.Load (the call main.go makes),
 	// so that the file loader, its defaulting and its validation are part of what is exercised
 	Load bool
 }
 
 type Stack struct {
-	Cfg      *config.Config
-	Manager  *services.ServiceManager
-	Addr     string
-	Repo     domain.EndpointRepository
-	Stats    ports.StatsCollector
-	Proxy    ports.ProxyService
-	Disc     *services.DiscoveryService
-	cancel   context.CancelFunc
-	EPs      []EP
+	Cfg     *config.Config
+	Manager *services.ServiceManager
+	Addr    string
+	Repo    domain.EndpointRepository
+	Stats   ports.StatsCollector
+	Proxy   ports.ProxyService
+	Disc    *services.DiscoveryService
+	cancel  context.CancelFunc
+	EPs     []EP
 }
 
 var logOnce sync.Once
@@ -471,13 +477,43 @@ func quiet() logger.StyledLogger {
 
 var portCtr uint32
 
+var (
+	portBlockOnce sync.Once
+	portBlockBase int
+	portBlockLock *os.File // held (flock) for the life of the process
+)
+
+// claimPortBlock reserves one block of 100 ports for this process. Harnesses of different properties may
+// run at the same time (and so may several checks against different trees): a block is claimed by taking an
+// exclusive flock on a file named after it, held until the process exits, so two live processes never share
+// a block. The search starts at a pid-derived index to spread processes out.
+func claimPortBlock() {
+	dir := filepath.Join(os.TempDir(), "verif-portblocks")
+	_ = os.MkdirAll(dir, 0o777)
+	start := os.Getpid() % 120
+	for i := 0; i < 120; i++ {
+		k := (start + i) % 120
+		f, err := os.OpenFile(filepath.Join(dir, fmt.Sprintf("block-%03d.lock", k)), os.O_CREATE|os.O_RDWR, 0o666)
+		if err != nil {
+			continue
+		}
+		if err := syscall.Flock(int(f.Fd()), syscall.LOCK_EX|syscall.LOCK_NB); err != nil {
+			f.Close()
+			continue
+		}
+		portBlockLock, portBlockBase = f, 20000+k*100
+		return
+	}
+	portBlockBase = 20000 + start*100 // every block taken (or no lock directory): fall back to the pid-derived block
+}
+
 // freePort hands out listen ports for the Olla server. The server binds the port itself (we cannot
 // pass it a listener), so a port must never be handed out twice while a stack may still be coming up:
 // ports come from a per-process block BELOW the kernel's ephemeral range (so backends' :0 listeners and
-// outgoing connections never take them), round-robin, and the block is chosen by pid so that harnesses
-// of different properties running in parallel do not share one.
+// outgoing connections never take them), round-robin inside the block.
 func freePort() int {
-	base := 20000 + (os.Getpid()%120)*100
+	portBlockOnce.Do(claimPortBlock)
+	base := portBlockBase
 	for i := 0; i < 100; i++ {
 		p := base + int(atomic.AddUint32(&portCtr, 1)%100)
 		ln, err := net.Listen("tcp", fmt.Sprintf("127.0.0.1:%d", p))
@@ -653,7 +689,7 @@ func (s *Stack) Statuses() map[string]string {
 // ---------------------------------------------------------------- raw client
 
 type Resp struct {
-	Err      string              `json:"err"`      // "" | dial | timeout | eof-before-status | bad-status-line | truncated
+	Err      string              `json:"err"` // "" | dial | timeout | eof-before-status | bad-status-line | truncated
 	Status   int                 `json:"status"`
 	Header   map[string][]string `json:"header"`
 	Body     []byte              `json:"-"`
